@@ -14,7 +14,7 @@ func init() {
 		ID:    "C05",
 		Level: "exploration",
 		Rule: "random programs of 15-45 transactions on one connection with a native shadow table in the same SQLite transaction: each transaction has 0-6 single-row statements (including failing ones: duplicate key, NULL key, NOT NULL) with in-transaction SELECTs compared against the shadow, and ends in COMMIT, ROLLBACK, or a COMMIT that hits an injected storage error at a seeded request of the commit; failing autocommit statements in between. " +
-			"Monitors: dump and root/ listing before BEGIN vs after any rollback; request log: exactly one version PUT per committing transaction that changed something, none otherwise; decoded stamps of the rows a transaction touched carry one time (default) or the explicit write_time; the connection stays usable after a failed commit. Trees of 1-4 levels (entries_per_node 2,3,4096, pre-loaded). " +
+			"Monitors: dump and root/ listing before BEGIN vs after any rollback; request log: exactly one version PUT per committing transaction that changed something, none otherwise; decoded stamps of the rows a transaction touched carry one time (default) or the explicit write_time (a third of the programs also set s3db_conn.deadline far in the future, before or after the write time); the connection stays usable after a failed commit. Trees of 1-4 levels (entries_per_node 2,3,4096, pre-loaded). " +
 			"non-trivial = the program contained at least one rollback after a mutating statement and one successful multi-statement commit; distinct = hash of the program",
 		Flavours: []string{"plain"},
 		Cases: func(tier string) int {
@@ -70,14 +70,32 @@ func runC05(c *Case) {
 		nkeys = r.Range(6, 30)
 	}
 	tsec := 100
+	// a deadline far in the future changes nothing about what is written or when it is stamped
+	withDeadline := r.Intn(3) == 0
+	setDeadline := func() {
+		if withDeadline {
+			if err := conn.Exec("update s3db_conn set deadline='2999-01-01 00:00:00'"); err != nil {
+				fail("set-deadline", err.Error())
+			}
+		}
+	}
+	if r.Bool() {
+		setDeadline()
+	}
 	setTime := func() {
 		if explicit {
 			tsec += r.Range(1, 5)
 			conn.SetWriteTime(tsec)
 		}
 	}
+	defer func() {
+		if withDeadline {
+			c.Count("programs_with_far_deadline", 1)
+		}
+	}()
 	// preload
 	setTime()
+	setDeadline()
 	conn.Exec("begin")
 	for i := 0; i < nkeys; i += 3 {
 		conn.Exec("insert into "+vt+" values (?,?,?)", int64(i), "pre", int64(i))
